@@ -920,6 +920,9 @@ func (x *Exec) indexAddr(fr *Frame, st *State, ins *ssa.IndexAddr) Value {
 		elem := b.Typ.Underlying().(*types.Slice).Elem()
 		if x.sweep {
 			x.safe(fr, st, And("(<= 0 "+idx+")", "(< "+idx+" "+b.Len+")"), "index", ins.Pos(), "index in range")
+			if fr.depth == 0 && len(x.obls) > 0 {
+				x.obls[len(x.obls)-1].Watch = []watch{{Name: "idx", Term: idx}, {Name: "len", Term: b.Len}}
+			}
 		}
 		x.assumeAt(st, And("(<= 0 "+idx+")", "(< "+idx+" "+b.Len+")"))
 		return x.elemAddr(elem, b.Arr, x.sliceIdx(b.Off, idx))
